@@ -14,7 +14,11 @@ Definition bin_val (b : binop) (l r : value) : outcome :=
   | Ne => eval_cmp 5 l r
   end.
 Definition bin_res (b : binop) (l r : value) : res value :=
-  match b with Amp => amp_res l r | _ => of_outcome (bin_val b l r) end.
+  match b with
+  | Amp => amp_res l r
+  | Lt => cmp_res 0 l r | Gt => cmp_res 1 l r | Eq => cmp_res 2 l r | Le => cmp_res 3 l r | Ge => cmp_res 4 l r | Ne => cmp_res 5 l r
+  | _ => of_outcome (bin_val b l r)
+  end.
 Fixpoint tree_val (t : tree) : res value :=
   match t with
   | Atom d => ROk (VInt (digits_z d))
